@@ -270,10 +270,10 @@ fn name_of(id: u128, variant: u64) -> String {
     format!("c50n{:x}v{}", id & 0xffff_ffff_ffff, variant)
 }
 
-fn gen_entry(rng: &mut Rng, p: &Pools, agreement: u8, batch_ids: &[u128], boundary_heavy: bool) -> SEntry {
+fn gen_entry(rng: &mut Rng, p: &Pools, agreement: u8, batch_ids: &[u128], clean: bool) -> SEntry {
     let own = if agreement == 0 { &p.a } else { &p.b };
     let other = if agreement == 0 { &p.b } else { &p.a };
-    let r = rng.below(100);
+    let r = if clean { 0 } else { rng.below(100) };
     let id = if r < 58 {
         *rng.pick(own)
     } else if r < 66 {
@@ -305,14 +305,13 @@ fn gen_entry(rng: &mut Rng, p: &Pools, agreement: u8, batch_ids: &[u128], bounda
     } else {
         *rng.pick(own)
     };
-    let _ = boundary_heavy;
     let is_group = (id & 1) == 1 && id != p.recycled;
     let mut schemas: Vec<String> = if is_group {
         vec![format!("{SCIM_SCHEMA_SYNC_1}group")]
     } else {
         vec![format!("{SCIM_SCHEMA_SYNC_1}account"), format!("{SCIM_SCHEMA_SYNC_1}person")]
     };
-    match rng.below(40) {
+    match if clean { 7 + rng.below(6) } else { rng.below(40) } {
         0 => schemas.push(format!("{SCIM_SCHEMA_SYNC_1}system")),
         1 => schemas.push(format!("{SCIM_SCHEMA_SYNC_1}nosuchclass")),
         2 => schemas.push("urn:ietf:params:scim:schemas:core:2.0:User".to_string()),
@@ -325,6 +324,13 @@ fn gen_entry(rng: &mut Rng, p: &Pools, agreement: u8, batch_ids: &[u128], bounda
             }
         }
         6 => schemas.clear(),
+        7 | 8 => {
+            if is_group {
+                schemas.push(format!("{SCIM_SCHEMA_SYNC_1}posixgroup"))
+            } else {
+                schemas.push(format!("{SCIM_SCHEMA_SYNC_1}posixaccount"))
+            }
+        }
         _ => {}
     }
     let posix = schemas.iter().any(|s| s.ends_with("posixaccount") || s.ends_with("posixgroup"));
@@ -368,7 +374,7 @@ fn gen_entry(rng: &mut Rng, p: &Pools, agreement: u8, batch_ids: &[u128], bounda
         attrs.insert("gidnumber".into(), AVal::Int(70_000 + (id & 0xfff) as i64));
     }
     // probes outside the sync-owned set / ill-typed
-    match rng.below(36) {
+    match if clean { 99 } else { rng.below(36) } {
         0 => {
             attrs.insert("uuid".into(), AVal::Str(Uuid::from_u128(*rng.pick(own)).to_string()));
         }
@@ -401,7 +407,7 @@ fn gen_entry(rng: &mut Rng, p: &Pools, agreement: u8, batch_ids: &[u128], bounda
         }
         _ => {}
     }
-    let ext = match rng.below(12) {
+    let ext = match if clean { 2 + rng.below(10) } else { rng.below(12) } {
         0 => None,
         1 => Some(format!("y{:x}", id & 0xffff_ffff_ffff)),
         _ => Some(format!("x{:x}", id & 0xffff_ffff_ffff)),
@@ -447,7 +453,8 @@ fn gen_op(rng: &mut Rng, p: &Pools, boundary_heavy: bool) -> Op {
     let r = rng.below(100);
     if r < 64 {
         let agreement = rng.below(2) as u8;
-        let ident = match rng.below(30) {
+        let clean = boundary_heavy_clean(rng, boundary_heavy);
+        let ident = match if clean { 9 } else { rng.below(30) } {
             0 => IdentSpec::Synch(agreement, 0),
             1 => IdentSpec::Synch(agreement, 1),
             2 => IdentSpec::User(1),
@@ -455,9 +462,9 @@ fn gen_op(rng: &mut Rng, p: &Pools, boundary_heavy: bool) -> Op {
             4 => IdentSpec::Internal,
             _ => IdentSpec::Synch(agreement, 2),
         };
-        let from = match rng.below(10) {
-            0..=3 => St::Refresh,
-            4 => St::Cookie(vec![9, 9, 9]),
+        let from = match if clean { 1 + rng.below(9) } else { rng.below(10) } {
+            0 => St::Cookie(vec![9, 9, 9]),
+            1 | 2 => St::Refresh,
             _ => St::Current,
         };
         let to = match rng.below(8) {
@@ -472,13 +479,14 @@ fn gen_op(rng: &mut Rng, p: &Pools, boundary_heavy: bool) -> Op {
         };
         let own = if agreement == 0 { &p.a } else { &p.b };
         let batch: Vec<u128> = (0..2).map(|_| *rng.pick(own)).collect();
-        let entries: Vec<SEntry> = (0..n).map(|_| gen_entry(rng, p, agreement, &batch, boundary_heavy)).collect();
-        let retain = match rng.below(10) {
+        let entries: Vec<SEntry> = (0..n).map(|_| { let c = clean || rng.chance(1, 2); gen_entry(rng, p, agreement, &batch, c) }).collect();
+        let retain = match if clean { rng.below(8) } else { rng.below(10) } {
             0..=4 => Ret::Ignore,
-            5 | 6 => {
+            5 | 6 if !clean => {
                 let k = rng.below(3);
                 Ret::Delete(gen_ids(rng, p, agreement, k))
             }
+            5 | 6 => Ret::Delete(vec![*rng.pick(own), *rng.pick(own)]),
             7 => Ret::Delete(vec![*rng.pick(own)]),
             8 => {
                 let mut keep: Vec<u128> = own.iter().copied().filter(|_| rng.chance(3, 4)).collect();
@@ -543,10 +551,110 @@ fn gen_op(rng: &mut Rng, p: &Pools, boundary_heavy: bool) -> Op {
     }
 }
 
+/// a request without probes (own ids, valid classes and attributes, right identity): 55 % of the
+/// sync requests, 30 % when a changed fingerprint raised the budget (more boundary requests)
+fn boundary_heavy_clean(rng: &mut Rng, boundary_heavy: bool) -> bool {
+    if boundary_heavy {
+        rng.chance(30, 100)
+    } else {
+        rng.chance(55, 100)
+    }
+}
+
+fn seed_op(rng: &mut Rng, p: &Pools, agreement: u8) -> Op {
+    let own = if agreement == 0 { &p.a } else { &p.b };
+    let batch: Vec<u128> = own[..4].to_vec();
+    let mut entries: Vec<SEntry> = vec![];
+    for id in &batch {
+        let mut e = gen_entry(rng, p, agreement, &batch, true);
+        // same shape, fixed id
+        let was_group = (e.id & 1) == 1;
+        let is_group = (id & 1) == 1;
+        if was_group != is_group {
+            continue;
+        }
+        e.id = *id;
+        e.ext = Some(format!("x{:x}", id & 0xffff_ffff_ffff));
+        for (a, v) in e.attrs.iter_mut() {
+            if a == "name" {
+                *v = AVal::Str(name_of(*id, 0));
+            }
+        }
+        entries.push(e);
+    }
+    Op::Sync { ident: IdentSpec::Synch(agreement, 2), from: St::Refresh, to: St::Cookie(vec![agreement, 7]), entries, retain: Ret::Ignore }
+}
+
+/// Deterministic openings (regression corpus): the D4 witness and the reserved range boundary, a
+/// password import after `primary_credential` was yielded, a foreign / native / recycled id.
+fn opening(world: u64, p: &Pools) -> Vec<Op> {
+    let acct = |id: u128, attrs: Vec<(&str, AVal)>| SEntry {
+        id,
+        ext: Some(format!("x{:x}", id & 0xffff_ffff_ffff)),
+        schemas: vec![format!("{SCIM_SCHEMA_SYNC_1}account"), format!("{SCIM_SCHEMA_SYNC_1}person")],
+        attrs: {
+            let mut m: BTreeMap<String, AVal> = BTreeMap::new();
+            m.insert("name".into(), AVal::Str(name_of(id, 0)));
+            m.insert("displayname".into(), AVal::Str("dn0".into()));
+            for (a, v) in attrs {
+                m.insert(a.to_string(), v);
+            }
+            m.into_iter().collect()
+        },
+    };
+    let sync = |agreement: u8, from: St, entries: Vec<SEntry>, retain: Ret| Op::Sync {
+        ident: IdentSpec::Synch(agreement, 2),
+        from,
+        to: St::Cookie(vec![agreement, 7]),
+        entries,
+        retain,
+    };
+    let person_a = p.a[0] & !1;
+    match world % 4 {
+        0 => {
+            // D4 (fixed f03f00a): ids in the reserved range, at and around the boundary
+            let mut v = vec![];
+            for id in [0xffff_0000_9999u128, 1, RESERVED_BOUND - 2, RESERVED_BOUND - 1, RESERVED_BOUND, RESERVED_BOUND + 1] {
+                v.push(sync(0, St::Refresh, vec![acct(id, vec![])], Ret::Ignore));
+            }
+            v
+        }
+        1 => vec![
+            sync(0, St::Refresh, vec![acct(person_a, vec![("password_import", AVal::Str(IMPORT_HASHES[0].into()))])], Ret::Ignore),
+            Op::Yield { agreement: 0, attrs: Some(vec!["primary_credential".into()]) },
+            sync(0, St::Current, vec![acct(person_a, vec![("password_import", AVal::Str(IMPORT_HASHES[1].into()))])], Ret::Ignore),
+            Op::Yield { agreement: 0, attrs: Some(vec!["legalname".into()]) },
+            Op::User { ident: IdentSpec::User(1), target: person_a, mods: vec![UMod::Present("legalname".into(), "u0".into())] },
+            Op::User { ident: IdentSpec::User(1), target: person_a, mods: vec![UMod::Present("displayname".into(), "u1".into())] },
+            sync(0, St::Current, vec![acct(person_a, vec![("legalname", AVal::Str("ln1".into()))])], Ret::Ignore),
+            sync(0, St::Current, vec![acct(person_a, vec![])], Ret::Ignore),
+        ],
+        2 => vec![
+            sync(0, St::Refresh, vec![acct(person_a, vec![])], Ret::Ignore),
+            sync(1, St::Refresh, vec![acct(person_a, vec![])], Ret::Ignore),
+            sync(1, St::Refresh, vec![acct(p.b[0] & !1, vec![])], Ret::Delete(vec![person_a])),
+            sync(1, St::Current, vec![acct(p.natives[0], vec![])], Ret::Ignore),
+            sync(1, St::Current, vec![acct(p.recycled, vec![])], Ret::Ignore),
+            sync(1, St::Current, vec![acct(p.tomb, vec![])], Ret::Ignore),
+            sync(1, St::Current, vec![], Ret::Delete(vec![p.natives[0], p.recycled])),
+            sync(1, St::Current, vec![], Ret::Retain(vec![])),
+            sync(0, St::Current, vec![], Ret::Delete(vec![person_a])),
+            sync(0, St::Current, vec![acct(person_a, vec![])], Ret::Ignore),
+        ],
+        _ => vec![],
+    }
+}
+
 fn gen_history(seed: u64, world: u64, n: u64, boundary_heavy: bool) -> Vec<Op> {
     let p = pools();
     let mut rng = Rng::for_case(seed, world);
-    (0..n).map(|_| gen_op(&mut rng, &p, boundary_heavy)).collect()
+    let mut v = opening(world, &p);
+    v.push(seed_op(&mut rng, &p, 0));
+    v.push(seed_op(&mut rng, &p, 1));
+    while (v.len() as u64) < n {
+        v.push(gen_op(&mut rng, &p, boundary_heavy));
+    }
+    v
 }
 
 // ---------------------------------------------------------------------------------------------
@@ -841,11 +949,19 @@ fn model_entry(n: &mut Names, e: &Sealed) -> String {
 
 /// blank the attribute field of a masked entry (the model keeps what it had, the harness does not
 /// read attributes of recycled entries)
-fn canon_model_line(l: &str) -> String {
+fn canon_model_line(l: &str, gid_attr: u64) -> String {
     let f: Vec<&str> = l.split('|').collect();
     if f.len() == 9 && f[1] != "0" {
         let mut g = f.clone();
         g[8] = "-";
+        g.join("|")
+    } else if f.len() == 9 {
+        // gidnumber values are not compared: the server allocates one when a posix class has none
+        let pre = format!("{gid_attr}=");
+        let kept: Vec<&str> = f[8].split(',').filter(|p| !p.starts_with(&pre)).collect();
+        let at = if kept.is_empty() { "-".to_string() } else { kept.join(",") };
+        let mut g: Vec<String> = f.iter().map(|x| x.to_string()).collect();
+        g[8] = at;
         g.join("|")
     } else {
         l.to_string()
@@ -892,13 +1008,18 @@ struct Run<'a> {
     rep: &'a mut Report,
     seed: u64,
     world: u64,
+    heavy: bool,
     quiet: bool,
     model_failures: u64,
+    /// stop the history at the first oracle failure (shrinking / replay)
+    stop_at_oracle: bool,
+    /// oracle classes seen
+    classes: BTreeSet<String>,
 }
 
 impl Run<'_> {
     fn input(&self, keep: &[usize]) -> J {
-        json!({"seed": self.seed, "world": self.world, "keep": keep})
+        json!({"seed": self.seed, "world": self.world, "heavy": self.heavy, "keep": keep})
     }
 }
 
@@ -1255,7 +1376,10 @@ async fn run_history(r: &mut Run<'_>, ops: &[Op], keep: &[usize]) -> Outcome {
         } else {
             let real_lines = real_tracked(r.n, &mut txn2.qs_write, &tracked);
             let dump = r.d.ask("dump");
-            let model_lines: Vec<String> = if dump == "-" { vec![] } else { dump.split(';').map(canon_model_line).collect() };
+            let model_lines: Vec<String> = if dump == "-" { vec![] } else { {
+                let gid = r.n.a("gidnumber");
+                dump.split(';').map(|l| canon_model_line(l, gid)).collect()
+            } };
             if real_lines != model_lines {
                 resync = true;
                 if !r.quiet && r.model_failures < 6 {
@@ -1432,18 +1556,26 @@ async fn run_history(r: &mut Run<'_>, ops: &[Op], keep: &[usize]) -> Outcome {
         }
         if !viol.is_empty() {
             oracle_fail = true;
-            if !r.quiet {
-                for (class, expected, observed) in viol {
-                    r.rep.fail(Failure {
-                        kind: "impl-vs-oracle".into(),
-                        class,
-                        input: json!({"replay": r.input(&done), "op": op_json(op)}),
-                        expected,
-                        observed: format!("{observed}; result {real_class}"),
-                    });
+            for (class, expected, observed) in viol {
+                r.classes.insert(class.clone());
+                if r.quiet {
+                    continue;
                 }
+                r.rep.count(&format!("oracle:{class}"));
+                if r.rep.failures.iter().filter(|f| f.class == class).count() >= 2 {
+                    continue;
+                }
+                r.rep.fail(Failure {
+                    kind: "impl-vs-oracle".into(),
+                    class,
+                    input: json!({"replay": r.input(&done), "op": op_json(op)}),
+                    expected,
+                    observed: format!("{observed}; result {real_class}"),
+                });
             }
-            break;
+            if r.stop_at_oracle {
+                break;
+            }
         }
     }
     Outcome { oracle_fail }
@@ -1507,10 +1639,11 @@ async fn main() {
         let inp = inp.get("replay").cloned().unwrap_or(inp);
         let seed = inp["seed"].as_u64().expect("seed");
         let world = inp["world"].as_u64().expect("world");
+        let heavy = inp["heavy"].as_bool().unwrap_or(false);
         let keep: Vec<usize> = inp["keep"].as_array().expect("keep").iter().map(|x| x.as_u64().expect("idx") as usize).collect();
-        let n_ops = keep.iter().max().map(|m| *m as u64 + 1).unwrap_or(0).max(if inp["thorough"].as_bool().unwrap_or(false) { thorough_ops } else { quick_ops });
-        let ops = gen_history(seed, world, n_ops, false);
-        let mut r = Run { n: &mut names, d: &mut d, rep: &mut rep, seed, world, quiet: false, model_failures: 0 };
+        let n_ops = keep.iter().max().map(|m| *m as u64 + 1).unwrap_or(0);
+        let ops = gen_history(seed, world, n_ops, heavy);
+        let mut r = Run { n: &mut names, d: &mut d, rep: &mut rep, seed, world, heavy, quiet: false, model_failures: 0, stop_at_oracle: false, classes: BTreeSet::new() };
         run_history(&mut r, &ops, &keep).await;
         rep.model_requests = d.requests;
         rep.write(&args.out);
@@ -1520,60 +1653,60 @@ async fn main() {
 
     let worlds = args.cases(14, 150);
     let n_ops = if args.thorough() { thorough_ops } else { quick_ops };
+    let heavy = args.budget > 1;
     let mut model_failures = 0u64;
-    let mut oracle_found = false;
+    let mut shrunk_classes: BTreeSet<String> = BTreeSet::new();
     for wi in 0..worlds {
-        let ops = gen_history(args.seed, wi, n_ops, args.budget > 1);
+        let ops = gen_history(args.seed, wi, n_ops, heavy);
         let keep: Vec<usize> = (0..ops.len()).collect();
-        let out = {
-            let mut r = Run { n: &mut names, d: &mut d, rep: &mut rep, seed: args.seed, world: wi, quiet: false, model_failures };
-            let o = run_history(&mut r, &ops, &keep).await;
+        let classes = {
+            let mut r = Run { n: &mut names, d: &mut d, rep: &mut rep, seed: args.seed, world: wi, heavy, quiet: false, model_failures, stop_at_oracle: false, classes: BTreeSet::new() };
+            run_history(&mut r, &ops, &keep).await;
             model_failures = r.model_failures;
-            o
+            r.classes.clone()
         };
         if rep.samples.len() < 4 {
-            rep.sample(json!({"world": wi, "first_ops": ops.iter().take(3).map(|o| format!("{o:?}")).collect::<Vec<_>>()}));
+            rep.sample(json!({"world": wi, "ops": ops.iter().skip(10).take(3).map(|o| format!("{o:?}")).collect::<Vec<_>>()}));
         }
-        if out.oracle_fail && !oracle_found {
-            oracle_found = true;
-            // shrink the history: keep the last executed op, drop earlier ones while it still fails
-            let last_fail = rep.failures.iter().rev().find(|f| f.kind == "impl-vs-oracle").and_then(|f| f.input["replay"]["keep"].as_array().cloned());
-            if let Some(k) = last_fail {
-                let full: Vec<usize> = k.iter().map(|x| x.as_u64().unwrap() as usize).collect();
-                let mut cur = full.clone();
-                let mut chunk = cur.len() / 2;
-                let mut budget = 40;
-                while chunk >= 1 && budget > 0 {
-                    let mut i = 0;
-                    while i + chunk < cur.len() && budget > 0 {
-                        let mut cand = cur.clone();
-                        cand.drain(i..i + chunk);
-                        budget -= 1;
-                        let mut sink = Report::new("shrink", "");
-                        let mut r = Run { n: &mut names, d: &mut d, rep: &mut sink, seed: args.seed, world: wi, quiet: true, model_failures: 99 };
-                        if run_history(&mut r, &ops, &cand).await.oracle_fail {
-                            cur = cand;
-                        } else {
-                            i += chunk;
-                        }
-                    }
-                    chunk /= 2;
-                }
-                if cur.len() < full.len() {
-                    // re-run the shrunk history loudly so that the report carries the minimal witness first
-                    let mut small = Report::new("shrunk", "");
-                    let mut r = Run { n: &mut names, d: &mut d, rep: &mut small, seed: args.seed, world: wi, quiet: false, model_failures: 99 };
-                    run_history(&mut r, &ops, &cur).await;
-                    let mut shrunk: Vec<Failure> = small.failures.into_iter().filter(|f| f.kind == "impl-vs-oracle").collect();
-                    if !shrunk.is_empty() {
-                        rep.failures.retain(|f| f.kind != "impl-vs-oracle");
-                        shrunk.append(&mut rep.failures);
-                        rep.failures = shrunk;
-                    }
-                }
+        // shrink the first witness of every oracle class (at most four classes per run)
+        for class in classes {
+            if shrunk_classes.contains(&class) || shrunk_classes.len() >= 4 {
+                continue;
             }
-            if args.budget <= 1 {
-                // keep going: other worlds may hold other classes
+            shrunk_classes.insert(class.clone());
+            let mut cur = keep.clone();
+            let mut chunk = (cur.len() / 2).max(1);
+            let mut budget = 48;
+            loop {
+                let mut i = 0;
+                while i < cur.len() && budget > 0 {
+                    let mut cand = cur.clone();
+                    let end = (i + chunk).min(cand.len());
+                    cand.drain(i..end);
+                    budget -= 1;
+                    let mut sink = Report::new("shrink", "");
+                    let mut r = Run { n: &mut names, d: &mut d, rep: &mut sink, seed: args.seed, world: wi, heavy, quiet: true, model_failures: 99, stop_at_oracle: false, classes: BTreeSet::new() };
+                    run_history(&mut r, &ops, &cand).await;
+                    if r.classes.contains(&class) {
+                        cur = cand;
+                    } else {
+                        i += chunk;
+                    }
+                }
+                if chunk == 1 || budget == 0 {
+                    break;
+                }
+                chunk = (chunk / 2).max(1);
+            }
+            // run the shrunk history loudly: its record replaces the long ones of this class
+            let mut small = Report::new("shrunk", "");
+            let mut r = Run { n: &mut names, d: &mut d, rep: &mut small, seed: args.seed, world: wi, heavy, quiet: false, model_failures: 99, stop_at_oracle: false, classes: BTreeSet::new() };
+            run_history(&mut r, &ops, &cur).await;
+            let mut shrunk: Vec<Failure> = small.failures.into_iter().filter(|f| f.kind == "impl-vs-oracle" && f.class == class).take(1).collect();
+            if !shrunk.is_empty() {
+                rep.failures.retain(|f| !(f.kind == "impl-vs-oracle" && f.class == class));
+                shrunk.append(&mut rep.failures);
+                rep.failures = shrunk;
             }
         }
     }
